@@ -1,6 +1,7 @@
 import Driver.Loop
 import TrustfallModel.Model.Interp
 import TrustfallModel.Model.Spec
+import TrustfallModel.Model.Outputs
 /-! Driver commands of the engine group: `(exec …)` (Interp over the real IR) and `(spec-exec …)`
 (declarative Spec over the generator's query tree). See ENGINE_PROTOCOL.md. -/
 namespace TF.Driver
@@ -71,7 +72,7 @@ def handleEngine : Handler
     let q ← parseIR ir
     let a ← parseArgs args
     match validateArgs q.variables a with
-    | .ok none => pure (renderR (interpret ⟨d, a⟩ q))
+    | .ok none => pure (renderR (interpret (Env.ofData d a) q))
     | .ok (some errs) => pure ("(err args " ++ " ".intercalate errs ++ ")")
     | .panic _ => pure "panic"
     | .fuel => pure "out-of-fuel"
@@ -81,6 +82,11 @@ def handleEngine : Handler
     let a ← parseArgs args
     let edges ← Spec.schemaEdges schema
     pure (renderR (Spec.rows ⟨d, a, edges⟩ q))
+  | "outputs", [_schema, _text, ir] => do
+    let q ← parseIR ir
+    let renderTy (t : QTy) : String :=
+      s!"(T {t.base}" ++ String.join (t.nulls.map fun b => if b then " 1" else " 0") ++ ")"
+    pure ("(outs" ++ String.join (q.outputs.map fun o => s!" ({o.name} {renderTy o.ty} {o.vid})") ++ ")")
   | _, _ => none
 
 end TF.Driver
